@@ -529,6 +529,12 @@ def fam_c07(tier, seed):
     for b in bases:
         for sh in shapes:
             sks.append(mk(i, "b", sh, base=b, wit=3)); i += 1
+    # the MCP tool explain_matching derives the tax year of the disposal date itself: executed (handlers compiled from the current
+    # source of crates/cgt-mcp) for every disposal of these ledgers, plus calculate_report per year
+    from . import symx as _symx
+    if _symx.MCP_OK:
+        for s0 in list(sks):
+            sks.append(dict(s0, id=f"m{i}", opts=dict(s0["opts"], variant="mcp"))); i += 1
     return sks
 
 
